@@ -11,7 +11,7 @@ Spec == Init /\ [][Next]_step
 AvcTable == [ i \in 0..255 |-> [ f \in 0..255 |-> AvcProfileOf(i, f) ] ]
 LangTable == [ c \in 0..65535 |-> LangUnpack(c) ]
 
-Theorems == BoxTableInjective /\ LangRoundTrip /\ LangCodeRoundTrip /\ Fx88
+Theorems == BoxTableInjective /\ LangRoundTrip /\ LangCodeRoundTrip /\ Fx88 /\ Fx88S
             /\ Cardinality(AudioObjectTypes) = 42 /\ Cardinality(BoxNames) = 56
 
 Emit == step = 1 =>
@@ -23,5 +23,6 @@ Emit == step = 1 =>
                             datatypes |-> DataTypes,
                             avc |-> [i \in {66, 77, 88, 100, 0, 65, 67, 101, 255} |-> AvcTable[i]],
                             avc_other |-> "reject",
-                            lang |-> LangTable ]))
+                            lang |-> LangTable,
+                            fx88s |-> [ r \in 0..65535 |-> FxValueS(r) ] ]))
 =============================================================================
